@@ -1,6 +1,7 @@
 import AvroModel.Theorems.C01
 import AvroModel.Theorems.C01de
 import AvroModel.Theorems.C02
+import AvroModel.Theorems.C01glue
 /-
 C01 — the datum round trip, all parts together:
 * `C02_sound_partial` (Theorems/C02.lean): what the implementation's serializer writes decodes,
@@ -8,8 +9,12 @@ C01 — the datum round trip, all parts together:
 * `C01_spec_roundtrip`: the specification decoder inverts the specification encoder;
 * `C01_de_accepts` (Theorems/C01de.lean): on the canonical specification encoding of `v` the
   implementation's deserializer delivers exactly `observe v` and consumes exactly the encoding.
-What is not closed in Lean is the last glue step "the bytes `ser` writes ARE the canonical
-encoding `Spec.encode v`" (C02 gives: they decode to `v`; canonical form follows because `ser`
-writes one block per sequence and minimal varints, which the `rt` stream checks on every case
-together with the composed statement).
+The glue step "the bytes `ser` writes ARE the canonical encoding `Spec.encode v`" is
+`C01_ser_canonical` (Theorems/C01glue.lean) and the composed statement over the implementation is
+`C01_roundtrip_impl`: serialize, then deserialize the written bytes with the untyped target, gives
+`observe v` for a `v` the presentation denotes.  Two presentations write a legal but NOT canonical
+layout and are excluded by explicit hypotheses with proved counterexamples: a sequence/map whose
+advertised length is smaller than its element count (one extra block per surplus element), and a
+negative integer presented to a bytes-backed decimal (sign bytes not stripped).  For those the
+round trip still holds by C02 + the all-layouts theorem of C03 (`C03_de_refines_spec`).
 -/
